@@ -28,6 +28,19 @@ theorem advance_total_live (o : Oracles) (symbols : List String) (c : Cursor Tok
     (∃ e, (advance t.2 o symbols c).1 = .error e ∧ SyntaxErr e) :=
   fun t ht => advance_total t.2 o symbols c (specials_registered t ht) hm
 
+/-- **comment-aware `advance` of each live parser class** terminates and raises coded errors only -/
+theorem advance2_total_live (o : Oracles) (symbols : List String) (c : Cursor Tok Match)
+    (hm : ∀ m ∈ c.tokens, FromPattern m = true) : ∀ t ∈ tables,
+    (advance2 t.2 o (c.tokens.length + 1) symbols c).1 = .ok () ∨
+    ∃ e, (advance2 t.2 o (c.tokens.length + 1) symbols c).1 = .error e ∧ LexErr e :=
+  fun t ht => advance2_total t.2 o symbols c (specials_registered t ht) hm
+
+/-- the comment delimiters are registered symbols of the 2.0+ parsers and FORG0006 (raised by
+`advance_until` without stop symbols) is a coded `ElementPathTypeError` -/
+theorem comment_symbols_registered :
+    (tables.filter (·.1 != "1.0")).all (fun t => t.2.has "(:" && t.2.has ":)") = true ∧
+    codeMap.cls? "FORG0006" = some "ElementPathTypeError" := by decide +kernel
+
 /-- non-vacuity: four tables, the largest has several hundred registered classes -/
 example : tables.length = 4 ∧ tables.all (fun t => 80 ≤ t.2.length) = true := by decide +kernel
 
